@@ -125,3 +125,12 @@ package memdb
 //@   ensures [C02,C14:positioned-means-the-nodes-own-key] result ==> (i.node == old(i.node) && i.node != 0 && sameslice(i.key, i.p.kvData[i.p.nodeData[i.node] : i.p.nodeData[i.node] + i.p.nodeData[i.node+1]]))
 //@   ensures [C02,C14:off-the-end-means-no-key] !result ==> (i.node == 0 && isnil(i.key) && isnil(i.value))
 //@   modifies i.node, i.key, i.value
+
+// Reset leaves an empty table with honest counters (it is reused through the pool).
+//@ func (*DB).Reset
+//@   props C14
+//@   safety off
+//@   requires !sameblock(p.nodeData, p.prevNode[:])
+//@   loop 1
+//@     invariant [C14:head-links-cleared-so-far] 0 <= n && p.n == 0 && p.kvSize == 0 && len(p.kvData) == 0 && p.maxHeight == 1 && (forall k int :: (0 <= k && k < n) ==> p.nodeData[4 + k] == 0)
+//@   ensures [C14:reset-empties-the-table-and-its-counters] p.n == 0 && p.kvSize == 0 && len(p.kvData) == 0 && p.maxHeight == 1 && p.nodeData[4] == 0 && p.nodeData[4 + p.maxHeight - 1] == 0
